@@ -13,7 +13,14 @@ def ptResult (r : Option Bs) : Json :=
   | some pt => .obj [("ok", .bool true), ("pt", .str (hexOfNats pt))]
   | none => .obj [("ok", .bool false)]
 
+/-- `["jwedec", {jwe, cek}, next]`: `jose_jwe_dec_cek_io(cfg, jwe, cek, next)` -/
+def jweStageExt : StageExt := fun k arg next =>
+  match k, arg.get? "jwe", arg.get? "cek" with
+  | "jwedec", some jwe, some cek => Jwe.decCekIo realPrims jwe cek next
+  | _, _, _ => none
+
 def jweOps : List (String × (Json → Json)) := [
+  ("io.run", ioRunWith jweStageExt),
   ("jwe.enc_jwk", fun a =>
     match a.get? "jwe", a.get? "jwk", a.get? "cek" with
     | some jwe, some jwk, some cek =>
